@@ -303,6 +303,7 @@ type el struct {
 	arrows   string
 	foreign  bool // some reference to the element lies in another file (imported)
 	impValue bool // declared as `key: @file`
+	dotted   bool // declared as the last segment of a dotted key that carries both a label and a block: `a.b: L {...}`
 	cells    map[string]string
 }
 
@@ -424,6 +425,10 @@ func stateOf(g *d2graph.Graph) *bstate {
 		for _, r := range o.References {
 			if r.Key != nil && r.Key.Range.Path != "index.d2" {
 				x.foreign = true
+			}
+			if r.MapKey != nil && len(r.MapKey.Edges) == 0 && r.Key != nil && len(r.Key.Path) > 1 && r.KeyPathIndex == len(r.Key.Path)-1 &&
+				r.MapKey.Primary.Unbox() != nil && r.MapKey.Value.Map != nil {
+				x.dotted = true
 			}
 			if r.MapKey != nil && (r.MapKey.Value.Import != nil || r.MapKey.Primary.Unbox() != nil && r.MapKey.Value.Import != nil) {
 				x.impValue = true
@@ -617,10 +622,12 @@ type call struct {
 	tInherited bool // the target is defined by a board the addressed board starts from
 	tImpValue  bool // the target is declared as `key: @file`
 	dImpValue  bool // the destination container / a connection end is declared as `key: @file`
+	tDotted    bool // the target is declared as `a.b: label {...}`
 	srcHasNull bool // the source contains `key: null` statements (left by deletions of imported / inherited elements)
 }
 
-// ctxSuffix names the construct an edit touches; it is appended to every violation signature.
+// ctxSuffix names the construct an edit touches (exactly one, by priority); it becomes part of
+// every violation signature.
 func (c *call) ctxSuffix() string {
 	switch {
 	case c.tImpValue:
@@ -631,14 +638,49 @@ func (c *call) ctxSuffix() string {
 		return "@imported-target"
 	case c.dForeign:
 		return "@imported-destination"
+	case c.srcHasNull:
+		return "@source-has-null"
+	case c.tDotted && (c.kind == opRename || c.kind == opMove):
+		return "@dotted-declaration"
 	case c.tInherited:
 		return "@inherited-target"
 	case c.bd != 0:
 		return "@board"
-	case c.srcHasNull:
-		return "@source-has-null"
 	}
 	return ""
+}
+
+// signature combines the failure kind computed by a check with the construct.
+func (x *exec) signature(sig string) string {
+	c := x.cur
+	if c == nil {
+		return sig
+	}
+	suf := c.ctxSuffix()
+	op := opNames[c.kind]
+	switch {
+	case strings.HasPrefix(sig, "refused-edit-"):
+		return sig // mutation in place before validation: independent of the construct
+	case strings.HasPrefix(sig, "panic:"):
+		return sig + suf
+	case x.prop == "C36" || x.prop == "C41":
+		return sig + suf
+	case strings.HasPrefix(suf, "@import") || suf == "@source-has-null":
+		// elements from imported files and sources with `x: null` statements are only partly
+		// understood by the editing functions; the failure kinds are many: one signature per
+		// operation and construct
+		if x.prop == "C40" {
+			return op + ":deltas-disagree" + suf
+		}
+		return op + ":violated" + suf
+	case sig == "delete-attr:not-reset:shape" || strings.HasPrefix(sig, "delete-obj:attribute-moved-to-parent"):
+		return sig // same cause whatever the context
+	case strings.HasPrefix(sig, "delete-attr:not-reset:") && strings.ContainsAny(c.elemID, "\"'"):
+		return "delete-attr:not-reset@quoted-name"
+	case x.prop == "C40" && c.kind == opRename && quoteName(c.newName) != c.newName && strings.HasPrefix(sig, "delta-mismatch"):
+		return sig + "@name-needs-quotes"
+	}
+	return sig + suf
 }
 
 func (c *call) String() string {
@@ -938,6 +980,7 @@ func (x *exec) setTarget(c *call, st *bstate, e *el) {
 	c.nonRoot = c.bd != 0 || e.depth > 1 || (e.edge && strings.Contains(e.absID, ".("))
 	c.tForeign = e.foreign
 	c.tImpValue = e.impValue
+	c.tDotted = e.dotted
 	if !e.edge {
 		for _, m := range st.order {
 			o := st.els[m]
@@ -1057,21 +1100,7 @@ type exec struct {
 func (x *exec) label(l string) { x.labels = append(x.labels, l) }
 
 func (x *exec) fail(step int, sig, format string, args ...any) {
-	if x.cur != nil {
-		suf := x.cur.ctxSuffix()
-		if strings.HasPrefix(sig, "refused-edit-") {
-			suf = "" // the in-place mutation before validation does not depend on the addressed construct
-		}
-		if strings.HasPrefix(suf, "@import") && !strings.HasPrefix(sig, "panic:") && x.prop != "C36" && x.prop != "C41" {
-			// elements that come from an imported file are only partly understood by the editing
-			// functions (the failure kinds are many): one signature per operation and construct
-			sig = opNames[x.cur.kind] + ":violated"
-			if x.prop == "C40" {
-				sig = opNames[x.cur.kind] + ":deltas-disagree"
-			}
-		}
-		sig += suf
-	}
+	sig = x.signature(sig)
 	if len(x.viol) < 6 {
 		x.viol = append(x.viol, violation{step: step, sig: sig, msg: fmt.Sprintf(format, args...)})
 	}
